@@ -96,16 +96,126 @@ async fn eval_pair(pattern: &str, key: &str) -> PairResult {
     res
 }
 
+#[derive(Debug, Clone, PartialEq, Default)]
+struct FullResult {
+    stored: Vec<String>,
+    pget: Option<Vec<String>>,
+    notified: Option<Vec<String>>,
+    pdeleted: Option<Vec<String>>,
+    remaining: Vec<String>,
+}
+
+/// The same three matchers on a store that holds every key of the alphabet at once: values at inner
+/// nodes, siblings whose names are prefixes of each other, empty segments next to them.
+async fn eval_full(pattern: &str, keys: &[String]) -> FullResult {
+    let mut res = FullResult::default();
+    let mut core = RealCore::new();
+    for k in keys {
+        if core.wb.set(k.clone(), json!(1), cid(INTERNAL), false).await.is_ok() {
+            res.stored.push(k.clone());
+        }
+    }
+    let sorted = |mut v: Vec<String>| {
+        v.sort();
+        v
+    };
+    res.pget = core.wb.pget(pattern).ok().map(|kvs| sorted(kvs.into_iter().map(|kv| kv.key).collect()));
+    res.notified = match core.wb.psubscribe(cid(0), 1, pattern.to_owned(), false, true).await {
+        Ok((mut rx, _)) => {
+            let mut got = vec![];
+            for k in &res.stored {
+                core.wb.set(k.clone(), json!(2), cid(INTERNAL), false).await.expect("set");
+                while let Ok(ev) = rx.try_recv() {
+                    if let PStateEvent::KeyValuePairs(kvs) = ev {
+                        got.extend(kvs.into_iter().map(|kv| kv.key));
+                    }
+                }
+            }
+            Some(sorted(got))
+        }
+        Err(_) => None,
+    };
+    res.pdeleted = core.wb.pdelete(pattern.to_owned(), cid(INTERNAL)).await.ok().map(|kvs| sorted(kvs.into_iter().map(|kv| kv.key).collect()));
+    for k in &res.stored {
+        if core.wb.get(k).is_ok() {
+            res.remaining.push(k.clone());
+        }
+    }
+    res
+}
+
+fn run_full(rep: &mut Report, patterns: &[String], keys: &[String]) -> (u64, u64, u64) {
+    let results = par_map(patterns, |_, p| block_on(eval_full(p, keys)));
+    let mut evaluations = 0u64;
+    let mut nontrivial = 0u64;
+    let mut selfcheck = 0u64;
+    for (pi, p) in patterns.iter().enumerate() {
+        let r = &results[pi];
+        evaluations += r.stored.len() as u64;
+        if (pi * 131 + mc::util::seed().unsigned_abs() as usize) % 97 == 0 {
+            selfcheck += 1;
+            if block_on(eval_full(p, keys)) != *r {
+                rep.machinery(format!("determinism self-check failed for pattern {p:?} on the full store"));
+            }
+        }
+        let pat = parse_pattern(p);
+        let replay = json!({"pattern": p, "store": "all keys of the alphabet", "pget": r.pget, "notified": r.notified, "pdelete": r.pdeleted});
+        if has_inner_multi(&pat) {
+            if r.pget.is_some() || r.notified.is_some() || r.pdeleted.is_some() {
+                rep.violation(format!("pattern {p:?} has a '#' that is not its last segment but was not rejected on the full store"), replay);
+            }
+            continue;
+        }
+        let mut doc: Vec<String> = r.stored.iter().filter(|k| matches(&pat, &split(k), false)).cloned().collect();
+        doc.sort();
+        if !doc.is_empty() && pat.iter().any(|s| matches!(s, Seg::One | Seg::Multi)) {
+            nontrivial += 1;
+        }
+        let (Some(pget), Some(notified), Some(pdeleted)) = (&r.pget, &r.notified, &r.pdeleted) else {
+            rep.violation(format!("legal pattern {p:?} rejected on the full store: pget {:?} psubscribe {:?} pdelete {:?}", r.pget.is_some(), r.notified.is_some(), r.pdeleted.is_some()), replay);
+            continue;
+        };
+        let expected_remaining: Vec<String> = r.stored.iter().filter(|k| pdeleted.binary_search(k).is_err()).cloned().collect();
+        if expected_remaining != r.remaining {
+            rep.violation(format!("pattern {p:?} on the full store: pdelete's answer and its effect disagree"), replay.clone());
+            continue;
+        }
+        // known deviation: store-side matching lets a trailing '#' match zero levels
+        let parent: Vec<String> = if pat.last() == Some(&Seg::Multi) {
+            r.stored.iter().filter(|k| matches(&pat[..pat.len() - 1], &split(k), false)).cloned().collect()
+        } else {
+            vec![]
+        };
+        let mut with_parent = doc.clone();
+        with_parent.extend(parent.iter().cloned());
+        with_parent.sort();
+        with_parent.dedup();
+        if *pget == doc && *notified == doc && *pdeleted == doc {
+            continue;
+        }
+        if !parent.is_empty() && *pget == with_parent && *pdeleted == with_parent && *notified == doc {
+            rep.known_or_violation(
+                SIG_HASH_PARENT,
+                format!("pattern {p:?} on the full store: pget and pdelete also match {parent:?}, notification does not (documented: no match)"),
+                replay,
+            );
+        } else {
+            rep.violation(format!("pattern {p:?} on the full store: documented {doc:?}, pget {pget:?}, notified {notified:?}, pdelete {pdeleted:?}"), replay);
+        }
+    }
+    (evaluations, nontrivial, selfcheck)
+}
+
 pub fn run(tier: &str) -> i32 {
     let max_len = if tier == "thorough" { 5 } else { 4 };
     // the empty string is not a pattern any stored key can match (the key "" cannot be stored) and
     // pdelete refuses it as an empty key; it is left out
-    let patterns: Vec<String> = all_seqs(&["a", "b", "", "?", "#"], max_len)
+    let patterns: Vec<String> = all_seqs(&["a", "ab", "", "?", "#"], max_len)
         .iter()
         .map(|s| s.join("/"))
         .filter(|p| !p.is_empty())
         .collect();
-    let keys: Vec<String> = all_seqs(&["a", "b", ""], max_len).iter().map(|s| s.join("/")).collect();
+    let keys: Vec<String> = all_seqs(&["a", "ab", ""], max_len).iter().map(|s| s.join("/")).collect();
     let mut ev = Evidence::new("C04", tier, "exploration");
     let mut rep = Report::new("C04");
     let results = par_map(&patterns, |_, p| {
@@ -194,19 +304,23 @@ pub fn run(tier: &str) -> i32 {
             }
         }
     }
-    ev.set("evaluations", json!(evaluations));
+    let (full_evals, full_nontrivial, full_selfchecks) = run_full(&mut rep, &patterns, &keys);
+    ev.set("evaluations", json!(evaluations + full_evals));
     ev.set("distinct_nontrivial", json!(nontrivial));
-    ev.set("rule", json!(format!("all {} patterns over {{a,b,'',?,#}} x all {} keys over {{a,b,''}} of 1..{} segments, each pair on a fresh core (set, pget, live psubscribe + set, pdelete), plus the three entry points on an empty store; all pairs are distinct by construction; non-trivial = the pattern has a wildcard and the pair matches under the documented relation or under pget, or the pattern must be rejected", patterns.len(), keys.len(), max_len)));
+    ev.set("full_store_pattern_key_evaluations", json!(full_evals));
+    ev.set("full_store_patterns_with_wildcard_and_match", json!(full_nontrivial));
+    ev.set("full_store_determinism_selfchecks", json!(full_selfchecks));
+    ev.set("rule", json!(format!("all {} patterns over {{a,ab,'',?,#}} x all {} keys over {{a,ab,''}} of 1..{} segments, each pair on a fresh core (set, pget, live psubscribe + set, pdelete), plus the three entry points on an empty store; all pairs are distinct by construction; non-trivial = the pattern has a wildcard and the pair matches under the documented relation or under pget, or the pattern must be rejected", patterns.len(), keys.len(), max_len)));
     ev.set("exhaustive", json!(true));
     ev.set("pairs_documented_match", json!(matches_total));
     ev.set("pairs_with_illegal_pattern", json!(rejected));
     ev.set("pairs_skipped_key_not_storable", json!(skipped));
     ev.set("determinism_selfchecks", json!(selfcheck));
-    ev.push_sample(json!({"pattern": "a/?/#", "key": "a/b/", "documented_match": true}));
+    ev.push_sample(json!({"pattern": "a/?/#", "key": "a/ab/", "documented_match": true}));
     ev.push_sample(json!({"pattern": patterns[patterns.len() / 2], "key": keys[keys.len() / 3]}));
     ev.push_sample(json!({"pattern": patterns[patterns.len() - 7], "key": keys[keys.len() - 5]}));
     ev.assume("the key with the single empty segment (the empty string) cannot be stored and is skipped; keys are stored by the server's own client");
     ev.assume("the empty-string pattern is left out: no storable key can match it and pdelete refuses it as an empty key");
-    ev.assume("relation decided per pair on a store that contains only that key (the matchers recurse over pattern and key, not over siblings)");
+    ev.assume("the relation is decided twice: per pair on a store that contains only that key, and per pattern on a store that holds every key of the alphabet at once (values at inner nodes, siblings that are string prefixes of each other, empty segments), where the three result sets must equal the documented set");
     rep.finish(&mut ev)
 }
